@@ -118,6 +118,51 @@ macro_rules! sweep {
 	}};
 }
 
+macro_rules! ascii_values {
+	($m:ident, $f:expr, $fr:expr, $dom:expr) => {{
+		use crate::fam::$m::{c05_case, SOp};
+		let mut ops: Vec<SOp> = Vec::new();
+		for v in domains::ascii_sweep(&["X", "aX", "Xa", "X/a", "a/X", "/X", "X:a", "aX:b"]) {
+			if $fr.valid(Kind::Path, &v) {
+				ops.push(SOp::Path(v));
+			}
+		}
+		for v in domains::ascii_sweep(&["X", "aXb"]) {
+			if $fr.valid(Kind::Query, &v) {
+				ops.push(SOp::Query(Some(v.clone())));
+			}
+			if $fr.valid(Kind::Fragment, &v) {
+				ops.push(SOp::Fragment(Some(v.clone())));
+			}
+			if $fr.valid(Kind::Authority, &v) {
+				ops.push(SOp::Authority(Some(v.clone())));
+			}
+		}
+		for v in domains::ascii_sweep(&["sX", "sXa"]) {
+			if $fr.valid(Kind::Scheme, &v) {
+				ops.push(SOp::Scheme(Some(v)));
+			}
+		}
+		let mut r = Report::new();
+		let mut vs = Vec::new();
+		for (t, _) in $dom.iter() {
+			r.states += 1;
+			for op in &ops {
+				let n = c05_case(t, op, &mut vs);
+				r.evaluations += n;
+				r.transitions += n;
+				r.distinct_nontrivial += n;
+			}
+			for v in vs.drain(..) {
+				r.violate(v);
+			}
+		}
+		r.traces = r.transitions;
+		let _ = $f;
+		r
+	}};
+}
+
 pub fn run(ctx: &Ctx) -> Report {
 	let refs = Refs::new(&ctx.root);
 	let mut total = Report::new();
@@ -143,6 +188,20 @@ pub fn run(ctx: &Ctx) -> Report {
 			Family::Iri => sweep!(iri, f, ctx, &dom, level),
 		};
 		total.merge(r);
+		// every printable ASCII character, one at a time, as (part of) a setter value, on a few buffers
+		{
+			let small: Vec<(Vec<u8>, syntax::Parts)> = ["", "s:", "//h", "s://u@h:1/p?q#f", "a/b", "/a", "s:a:b", "?q", "#f"]
+				.iter()
+				.map(|t| (domains::b(t), syntax::split(t.as_bytes())))
+				.filter(|(t, _)| fr.valid(Kind::RiRef, t))
+				.collect();
+			let r = match f {
+				Family::Uri => ascii_values!(uri, f, &fr, &small),
+				Family::Iri => ascii_values!(iri, f, &fr, &small),
+			};
+			total.count(&format!("{}_ascii_sweep_cases", f.name()), r.transitions);
+			total.merge(r);
+		}
 		if ctx.out_of_time() {
 			total.cap(format!("wall clock reached after {}", f.name()));
 			return total;
